@@ -489,8 +489,10 @@ class Summary:
             groups_.setdefault(key_, []).append(uid_)
         anum = {}
         for dg_, uids_ in groups_.items():
-            for rk_, uid_ in enumerate(sorted(uids_)):
-                anum[uid_] = f"#a{dg_[:8]}.{rk_}"
+            for uid_ in uids_:
+                # equal-looking sites share the name: telling them apart by program order would make two independent allocation
+                # statements non-interchangeable; what is done to each array afterwards (its carried updates) tells them apart
+                anum[uid_] = f"#a{dg_[:10]}"
         _ANUM[0] = anum
         self.loops = 0
         self.entries = []       # (kind, condkey, data-as-term)
